@@ -126,14 +126,17 @@ def run_main(argv, trigger=None, stdin=None, close_stdin_at_end=True, keep_input
     orig_save = cs.CrackingSession._save_session
     def rec_print(self, g):
         ctx.pcfg = self
-        res.guesses.append(g)
+        # a tool may hand several guesses to one call (a block joined by newlines): what counts is the lines, not how many calls carried them
+        parts = g.split('\n') if isinstance(g, str) and '\n' in g else [g]
+        n0 = len(res.guesses)
+        res.guesses.extend(parts)
         res.debug = bool(getattr(self, 'debug', False))
         orig_print(self, g)      # the real print statement runs against the captured standard output
         if len(res.guesses) > (max_guesses if max_guesses is not None else 20000000):
             raise RunawayOutput(f'more than {max_guesses if max_guesses is not None else 20000000} guesses: the run does not stop')
         if trigger:
-            trigger(('GUESS', len(res.guesses), g, len(res.pops) - 1,
-                     len(res.guesses) - (res.pops[-1]['first_guess'] if res.pops else 0)), ctx)
+            for k, part in enumerate(parts, n0 + 1):
+                trigger(('GUESS', k, part, len(res.pops) - 1, k - (res.pops[-1]['first_guess'] if res.pops else 0)), ctx)
     def rec_next(self):
         item = orig_next(self)
         ctx.pcfg = self.pcfg
